@@ -220,7 +220,9 @@ pub fn run(outdir: &Path, tier: &str, seed: u64, shards: usize, _replay: Option<
                     Some(bytes) => {
                         let text = String::from_utf8_lossy(bytes).to_string();
                         let header_ok = text.lines().next().map(|l| l.trim() == header).unwrap_or(false);
-                        match syn::parse_file(&text) {
+                        // rustc reads a source file with CR LF turned into LF before it lexes (also inside raw string
+                        // literals): what the compiled QUERY constant will be is the literal's value after that
+                        match syn::parse_file(&text.replace("\r\n", "\n")) {
                             Ok(f) => match items::conv_file(&f) {
                                 Ok(mut ms) => {
                                     for m in ms.iter_mut() {
